@@ -35,3 +35,476 @@ Proof.
         intros E. injection E as -> ->. exact (M m out eq_refl).
   - rewrite M. reflexivity.
 Qed.
+
+(* ---------- facts about the message an encoder call stands for ---------- *)
+Lemma model_spec_same h id a ls eid : (id =? 15) && h = false ->
+  model_message h id a ls eid = spec_message h id a ls eid.
+Proof. intros E. unfold model_message. rewrite E. reflexivity. Qed.
+Lemma model_spec_15 a ls eid :
+  model_message true 15 a ls eid = Some (0, [128; 14; arg a 1; arg a 2]) /\
+  spec_message true 15 a ls eid = Some (0, [128; 15; arg a 1; arg a 2]).
+Proof. split; reflexivity. Qed.
+
+Lemma spec_mt_lt h id a ls eid mt body : spec_message h id a ls eid = Some (mt, body) -> mt < 128.
+Proof.
+  unfold spec_message, spec_request, spec_response. intros E.
+  repeat match type of E with
+         | (match ?x with _ => _ end) = _ => destruct x; try discriminate
+         | (if ?x then _ else _) = _ => destruct x; try discriminate
+         | (let '(_, _) := ?x in _) = _ => destruct x
+         end;
+  injection E as <- _; try reflexivity; apply N.mod_lt; discriminate.
+Qed.
+
+Lemma model_mt_lt h id a ls eid mt body : model_message h id a ls eid = Some (mt, body) -> mt < 128.
+Proof. unfold model_message. destruct ((id =? 15) && h).
+  - intros E. injection E as <- _. reflexivity.
+  - apply spec_mt_lt. Qed.
+
+(* both stand for a message of the same type; they differ only in query_hop's command code *)
+Lemma model_spec_mt h id a ls eid mt body : model_message h id a ls eid = Some (mt, body) ->
+  exists body', spec_message h id a ls eid = Some (mt, body') /\ length body' = length body.
+Proof. destruct ((id =? 15) && h) eqn:E.
+  - apply andb_true_iff in E as [E1 ->]. apply N.eqb_eq in E1. subst id.
+    destruct (model_spec_15 a ls eid) as [M S]. rewrite M, S. intros H. injection H as <- <-.
+    eexists. split; reflexivity.
+  - rewrite (model_spec_same _ _ _ _ _ E). intros H. exists body. split; [exact H|reflexivity]. Qed.
+Lemma model_none_spec h id a ls eid : model_message h id a ls eid = None -> spec_message h id a ls eid = None.
+Proof. destruct ((id =? 15) && h) eqn:E.
+  - unfold model_message. rewrite E. discriminate.
+  - rewrite (model_spec_same _ _ _ _ _ E). auto. Qed.
+
+Lemma list_eqb_refl l : list_eqb l l = true.
+Proof. induction l as [|x l IH]; [reflexivity|]. cbn [list_eqb]. rewrite N.eqb_refl, IH. reflexivity. Qed.
+Lemma list_eqb_eq a b : list_eqb a b = true -> a = b.
+Proof. revert b; induction a as [|x a IH]; intros [|y b] H; try discriminate; [reflexivity|].
+  cbn [list_eqb] in H. apply andb_true_iff in H as [H1 H2]. apply N.eqb_eq in H1. f_equal; auto. Qed.
+
+Lemma oinv_eid ovf s c : oinv ovf s c -> snd (os_eids s) = c_eid_resp c.
+Proof. intros (E & _). rewrite E. reflexivity. Qed.
+
+(* bytes 4..8 of a specified packet *)
+Lemma spec_packet_4_8 A D M B R : sub (spec_packet A D M B ++ R) 4 5 = [1; D; A; 200; M].
+Proof. reflexivity. Qed.
+Lemma spec_packet_0_3 A D M B R :
+  firstn 4 (spec_packet A D M B ++ R) = [(D mod 128) * 2; 15; N.of_nat (length B + 6); (A mod 128) * 2 + 1].
+Proof. reflexivity. Qed.
+Lemma spec_packet_length A D M B : length (spec_packet A D M B) = (10 + length B)%nat.
+Proof. unfold spec_packet, spec_prefix. rewrite !app_length. cbn [length]. lia. Qed.
+
+(* a non-success observation gives the per-encode oracles nothing to decide *)
+Ltac not_success x Hx :=
+  destruct x as [?| | | |[?|] ?| | | |]; try apply good_triv; exfalso; eapply Hx; reflexivity.
+
+(* ---------- C05 ---------- *)
+Lemma c05_step_ok ovf g s c o : wf_cfg g -> cinv g c -> oinv ovf s c -> wf_op o ->
+  good (c05_step g s o (snd (step ovf c o))) = true.
+Proof.
+  intros Hg Hc Ho Hw. destruct o as [| | | | |h id a ls buf| |]; try apply good_triv.
+  destruct Hw as [Hok Hb].
+  pose proof (step_encode_obs ovf g c h id a ls buf Hg Hc Hok) as S. cbv zeta in S.
+  unfold c05_step. rewrite (oinv_eid _ _ _ Ho).
+  destruct (encode_call ovf c h id a ls) as [w|]; [|rewrite S; apply good_triv].
+  destruct (model_message h id a ls (c_eid_resp c)) as [[mt body]|] eqn:M; [|rewrite S; apply good_triv].
+  destruct (259 <? 10 + length body)%nat; [rewrite S; apply good_triv|].
+  destruct (10 + length body <=? length buf)%nat.
+  - rewrite S. destruct (model_spec_mt _ _ _ _ _ _ _ M) as [body' [Sp _]]. rewrite Sp.
+    apply good_of. rewrite spec_packet_4_8.
+    destruct Hc as (Ha & _). rewrite list_eqb_refl. cbn [andb].
+    apply N.ltb_lt. eapply model_mt_lt. exact M.
+  - not_success (snd (step ovf c (OEncode h id a ls buf))) S.
+Qed.
+
+Theorem c05_holds : holds_on_model 5.
+Proof. apply holds_from_step. intros ovf g s c o Hg Hc Ho Hw. cbn [oracle_of obs3_of fst]. apply c05_step_ok; assumption. Qed.
+
+(* ---------- the body of a specified packet ---------- *)
+Lemma skipn_app_exact {A} (l r : list A) n : length l = n -> skipn n (l ++ r) = r.
+Proof. intros <-. rewrite skipn_app, Nat.sub_diag, skipn_all. reflexivity. Qed.
+
+Lemma spec_packet_split A D M B :
+  spec_packet A D M B =
+  [(D mod 128) * 2; 15; N.of_nat (length B + 6); (A mod 128) * 2 + 1; 1; D; A; 200; M] ++ B ++ [pec (spec_prefix A D M B)].
+Proof. unfold spec_packet. unfold spec_prefix at 1. rewrite <- app_assoc. reflexivity. Qed.
+
+Lemma spec_packet_body A D M B1 B2 R :
+  sub (spec_packet A D M (B1 ++ B2) ++ R) (9 + length B1) (length B2) = B2.
+Proof.
+  rewrite spec_packet_split. unfold sub.
+  set (P9 := [(D mod 128) * 2; 15; N.of_nat (length (B1 ++ B2) + 6); (A mod 128) * 2 + 1; 1; D; A; 200; M]).
+  replace ((P9 ++ (B1 ++ B2) ++ [pec (spec_prefix A D M (B1 ++ B2))]) ++ R)
+    with ((P9 ++ B1) ++ B2 ++ ([pec (spec_prefix A D M (B1 ++ B2))] ++ R)) by (rewrite <- !app_assoc; reflexivity).
+  rewrite skipn_app_exact by (rewrite app_length; reflexivity).
+  apply firstn_app_exact. reflexivity.
+Qed.
+
+Lemma spec_packet_out_length A D M B buf :
+  (10 + length B <= length buf)%nat ->
+  length (spec_packet A D M B ++ skipn (10 + length B) buf) = length buf.
+Proof. intros H. rewrite app_length, spec_packet_length, skipn_length. lia. Qed.
+
+Lemma spec_packet_tail A D M B buf :
+  skipn (10 + length B) (spec_packet A D M B ++ skipn (10 + length B) buf) = skipn (10 + length B) buf.
+Proof. apply skipn_app_exact. apply spec_packet_length. Qed.
+
+(* ---------- C06 ---------- *)
+Lemma id_1_17 id : (1 <=? id) && (id <=? 17) = true ->
+  id = 1 \/ id = 2 \/ id = 3 \/ id = 4 \/ id = 5 \/ id = 6 \/ id = 7 \/ id = 8 \/ id = 9 \/ id = 10 \/
+  id = 11 \/ id = 12 \/ id = 13 \/ id = 14 \/ id = 15 \/ id = 16 \/ id = 17.
+Proof. intros H. apply andb_true_iff in H as [H1 H2]. apply N.leb_le in H1, H2. lia. Qed.
+
+Lemma model_request id a ls eid : (1 <=? id) && (id <=? 17) = true ->
+  match spec_request id a ls with
+  | Some (code, params) => model_message true id a ls eid = Some (0, [128; (if id =? 15 then 14 else code)] ++ params)
+  | None => model_message true id a ls eid = None
+  end.
+Proof.
+  intros H. apply id_1_17 in H.
+  repeat (destruct H as [->|H]); try subst id;
+  first [ reflexivity
+        | change (model_message true 1 a ls eid) with
+            (match spec_request 1 a ls with Some (code, params) => Some (0, [128; code] ++ params) | None => None end);
+          destruct (spec_request 1 a ls) as [[code params]|]; reflexivity
+        | change (model_message true 9 a ls eid) with
+            (match spec_request 9 a ls with Some (code, params) => Some (0, [128; code] ++ params) | None => None end);
+          destruct (spec_request 9 a ls) as [[code params]|]; reflexivity ].
+Qed.
+
+Lemma c06_step_ok ovf g s c o : wf_cfg g -> cinv g c -> oinv ovf s c -> wf_op o ->
+  good (c06_step s o (snd (step ovf c o))) = true.
+Proof.
+  intros Hg Hc Ho Hw. destruct o as [| | | | |h id a ls buf| |]; try apply good_triv.
+  destruct Hw as [Hok Hb].
+  pose proof (step_encode_obs ovf g c h id a ls buf Hg Hc Hok) as S. cbv zeta in S.
+  unfold c06_step. destruct h; [|destruct (snd (step ovf c (OEncode false id a ls buf))) as [?| | | |[?|] ?| | | |]; apply good_triv].
+  destruct ((1 <=? id) && (id <=? 17)) eqn:Hid.
+  2:{ destruct (snd (step ovf c (OEncode true id a ls buf))) as [?| | | |[?|] ?| | | |]; apply good_triv. }
+  pose proof (model_request id a ls (c_eid_resp c) Hid) as MR.
+  destruct (encode_call ovf c true id a ls) as [w|]; [|rewrite S; apply good_triv].
+  destruct (spec_request id a ls) as [[code params]|].
+  - rewrite MR in S. set (code' := if id =? 15 then 14 else code) in *.
+    set (body := [128; code'] ++ params) in *.
+    assert (Hn : (10 + length body = 12 + length params)%nat) by (unfold body; cbn [app length]; lia).
+    destruct (259 <? 10 + length body)%nat; [rewrite S; apply good_triv|].
+    destruct (10 + length body <=? length buf)%nat eqn:Hl.
+    + rewrite S. apply Nat.leb_le in Hl.
+      set (out := spec_packet (g_addr g) (enc_dest true id a) 0 body ++ skipn (10 + length body) buf).
+      assert (Hlen : length out = length buf) by (apply spec_packet_out_length; exact Hl).
+      assert (H9 : nth 9 out 0 = 128) by reflexivity.
+      assert (H10 : nth 10 out 0 = code') by reflexivity.
+      assert (Hp : sub out 11 (10 + length body - 12) = params).
+      { rewrite Hn. replace (12 + length params - 12)%nat with (length params) by lia.
+        exact (spec_packet_body (g_addr g) (enc_dest true id a) 0 [128; code'] params _). }
+      rewrite H9, H10, Hp, Hlen, list_eqb_refl, N.eqb_refl.
+      replace (10 <=? 10 + length body)%nat with true by (symmetry; apply Nat.leb_le; lia).
+      replace (10 + length body <=? length buf)%nat with true by (symmetry; apply Nat.leb_le; lia).
+      replace (12 <=? 10 + length body)%nat with true by (symmetry; apply Nat.leb_le; lia).
+      cbn [andb]. unfold code'. unfold good, sv_kf; cbn [s_o s_kf]. destruct (id =? 15); [apply orb_true_r|]. rewrite N.eqb_refl. reflexivity.
+    + not_success (snd (step ovf c (OEncode true id a ls buf))) S.
+  - rewrite MR in S. rewrite S. apply good_triv.
+Qed.
+
+Theorem c06_holds : holds_on_model 6.
+Proof. apply holds_from_step. intros ovf g s c o Hg Hc Ho Hw. cbn [oracle_of obs3_of fst]. eapply c06_step_ok; eassumption. Qed.
+
+(* ---------- C07 ---------- *)
+Lemma id_1_6 id : (1 <=? id) && (id <=? 6) = true -> id = 1 \/ id = 2 \/ id = 3 \/ id = 4 \/ id = 5 \/ id = 6.
+Proof. intros H. apply andb_true_iff in H as [H1 H2]. apply N.leb_le in H1, H2. lia. Qed.
+
+Lemma model_response id a ls eid : (1 <=? id) && (id <=? 6) = true ->
+  match spec_response id a ls eid with
+  | Some (code, cc, fields) => model_message false id a ls eid = Some (0, [0; code; cc] ++ fields)
+  | None => model_message false id a ls eid = None
+  end.
+Proof.
+  intros H. apply id_1_6 in H.
+  repeat (destruct H as [->|H]); try subst id;
+  first [ reflexivity
+        | change (model_message false 5 a ls eid) with
+            (match spec_response 5 a ls eid with Some (code, cc, fields) => Some (0, [0; code; cc] ++ fields) | None => None end);
+          destruct (spec_response 5 a ls eid) as [[[code cc] fields]|]; reflexivity ].
+Qed.
+
+Lemma c07_step_ok ovf g s c o : wf_cfg g -> cinv g c -> oinv ovf s c -> wf_op o ->
+  good (c07_step s o (snd (step ovf c o))) = true.
+Proof.
+  intros Hg Hc Ho Hw. destruct o as [| | | | |h id a ls buf| |]; try apply good_triv.
+  destruct Hw as [Hok Hb].
+  pose proof (step_encode_obs ovf g c h id a ls buf Hg Hc Hok) as S. cbv zeta in S.
+  unfold c07_step. destruct h; [destruct (snd (step ovf c (OEncode true id a ls buf))) as [?| | | |[?|] ?| | | |]; apply good_triv|].
+  destruct ((1 <=? id) && (id <=? 6)) eqn:Hid.
+  2:{ destruct (snd (step ovf c (OEncode false id a ls buf))) as [?| | | |[?|] ?| | | |]; apply good_triv. }
+  rewrite (oinv_eid _ _ _ Ho).
+  pose proof (model_response id a ls (c_eid_resp c) Hid) as MR.
+  destruct (encode_call ovf c false id a ls) as [w|]; [|rewrite S; apply good_triv].
+  destruct (spec_response id a ls (c_eid_resp c)) as [[[code cc] fields]|].
+  - rewrite MR in S. set (body := [0; code; cc] ++ fields) in *.
+    assert (Hn : (10 + length body = 13 + length fields)%nat) by (unfold body; cbn [app length]; lia).
+    destruct (259 <? 10 + length body)%nat; [rewrite S; apply good_triv|].
+    destruct (10 + length body <=? length buf)%nat eqn:Hl.
+    + rewrite S. apply Nat.leb_le in Hl.
+      set (out := spec_packet (g_addr g) (enc_dest false id a) 0 body ++ skipn (10 + length body) buf).
+      assert (Hlen : length out = length buf) by (apply spec_packet_out_length; exact Hl).
+      assert (H9 : sub out 9 3 = [0; code; cc]) by reflexivity.
+      assert (Hp : sub out 12 (10 + length body - 13) = fields).
+      { rewrite Hn. replace (13 + length fields - 13)%nat with (length fields) by lia.
+        exact (spec_packet_body (g_addr g) (enc_dest false id a) 0 [0; code; cc] fields _). }
+      rewrite H9, Hp, Hlen, !list_eqb_refl.
+      replace (10 <=? 10 + length body)%nat with true by (symmetry; apply Nat.leb_le; lia).
+      replace (10 + length body <=? length buf)%nat with true by (symmetry; apply Nat.leb_le; lia).
+      cbn [andb]. apply good_of. apply orb_true_r.
+    + not_success (snd (step ovf c (OEncode false id a ls buf))) S.
+  - rewrite MR in S. rewrite S. apply good_triv.
+Qed.
+
+Theorem c07_holds : holds_on_model 7.
+Proof. apply holds_from_step. intros ovf g s c o Hg Hc Ho Hw. cbn [oracle_of obs3_of fst]. eapply c07_step_ok; eassumption. Qed.
+
+(* ---------- C08 ---------- *)
+Lemma spec_packet_from_type A D M B R : sub (spec_packet A D M B ++ R) 8 (1 + length B) = M :: B.
+Proof.
+  rewrite spec_packet_split. unfold sub.
+  set (P8 := [(D mod 128) * 2; 15; N.of_nat (length B + 6); (A mod 128) * 2 + 1; 1; D; A; 200]).
+  change ([(D mod 128) * 2; 15; N.of_nat (length B + 6); (A mod 128) * 2 + 1; 1; D; A; 200; M]) with (P8 ++ [M]).
+  replace (((P8 ++ [M]) ++ B ++ [pec (spec_prefix A D M B)]) ++ R)
+    with (P8 ++ (M :: B) ++ ([pec (spec_prefix A D M B)] ++ R)) by (rewrite <- !app_assoc; reflexivity).
+  rewrite skipn_app_exact by reflexivity.
+  apply firstn_app_exact. reflexivity.
+Qed.
+
+Lemma c08_core ovf g c h id a ls buf :
+  wf_cfg g -> cinv g c -> args_okb h id a ls = true ->
+  (exists w, encode_call ovf c h id a ls = Some w) ->
+  model_message h id a ls (c_eid_resp c) = spec_message h id a ls 0 ->
+  good (match spec_message h id a ls 0, snd (step ovf c (OEncode h id a ls buf)) with
+        | Some (mt, body), XEnc (Some n) out =>
+            sv_of ((10 <=? n)%nat && (n <=? length out)%nat && list_eqb (sub out 8 (n - 9)) (mt :: body)) id
+        | Some (mt, body), XEnc None out => sv_triv
+        | Some (mt, body), _ => sv_triv
+        | None, XEnc None out => sv_of (list_eqb out buf) id
+        | None, _ => sv_of false id
+        end) = true.
+Proof.
+  intros Hg Hc Hok [w Ew] HM.
+  pose proof (step_encode_obs ovf g c h id a ls buf Hg Hc Hok) as S. cbv zeta in S.
+  rewrite Ew, HM in S.
+  destruct (spec_message h id a ls 0) as [[mt body]|].
+  - destruct (259 <? 10 + length body)%nat; [rewrite S; apply good_triv|].
+    destruct (10 + length body <=? length buf)%nat eqn:Hl.
+    + rewrite S. apply Nat.leb_le in Hl. apply good_of.
+      rewrite spec_packet_out_length by exact Hl.
+      replace (10 + length body - 9)%nat with (1 + length body)%nat by lia.
+      rewrite spec_packet_from_type, list_eqb_refl.
+      replace (10 <=? 10 + length body)%nat with true by (symmetry; apply Nat.leb_le; lia).
+      replace (10 + length body <=? length buf)%nat with true by (symmetry; apply Nat.leb_le; lia).
+      reflexivity.
+    + destruct (snd (step ovf c (OEncode h id a ls buf))) as [?| | | |[?|] ?| | | |]; try apply good_triv.
+      exfalso. eapply S. reflexivity.
+  - rewrite S. apply good_of, list_eqb_refl.
+Qed.
+
+Lemma c08_step_ok ovf g s c o : wf_cfg g -> cinv g c -> oinv ovf s c -> wf_op o ->
+  good (c08_step s o (snd (step ovf c o))) = true.
+Proof.
+  intros Hg Hc Ho Hw. destruct o as [| | | | |h id a ls buf| |]; try apply good_triv.
+  destruct Hw as [Hok Hb]. unfold c08_step.
+  destruct (N.eqb_spec id 31) as [->|N31].
+  { rewrite orb_true_r. cbn [orb]. apply (c08_core ovf g c h 31 a ls buf Hg Hc Hok); [eexists; reflexivity|reflexivity]. }
+  destruct (N.eqb_spec id 32) as [->|N32].
+  { rewrite orb_true_r. cbn [orb]. apply (c08_core ovf g c h 32 a ls buf Hg Hc Hok); [eexists; reflexivity|reflexivity]. }
+  destruct (N.eqb_spec id 33) as [->|N33].
+  { rewrite orb_true_r. apply (c08_core ovf g c h 33 a ls buf Hg Hc Hok); [eexists; reflexivity|reflexivity]. }
+  rewrite !orb_false_r.
+  destruct h; [|apply good_triv]. cbn [andb].
+  destruct (N.eqb_spec id 20) as [->|N20]; [|apply good_triv].
+  apply (c08_core ovf g c true 20 a ls buf Hg Hc Hok); [eexists; reflexivity|reflexivity].
+Qed.
+
+Theorem c08_holds : holds_on_model 8.
+Proof. apply holds_from_step. intros ovf g s c o Hg Hc Ho Hw. cbn [oracle_of obs3_of fst]. eapply c08_step_ok; eassumption. Qed.
+
+(* ---------- C16 ---------- *)
+Lemma known_encoder_call ovf c h id a ls : known_encoder h id = true -> exists w, encode_call ovf c h id a ls = Some w.
+Proof.
+  unfold known_encoder. intros H.
+  assert (Hc : id = 30 \/ id = 31 \/ id = 32 \/ id = 33 \/
+               (h = true /\ (id = 1 \/ id = 2 \/ id = 3 \/ id = 4 \/ id = 5 \/ id = 6 \/ id = 7 \/ id = 8 \/ id = 9 \/ id = 10 \/
+                            id = 11 \/ id = 12 \/ id = 13 \/ id = 14 \/ id = 15 \/ id = 16 \/ id = 17 \/ id = 20)) \/
+               (h = false /\ (id = 1 \/ id = 2 \/ id = 3 \/ id = 4 \/ id = 5 \/ id = 6))).
+  { apply orb_true_iff in H as [H|H].
+    - apply andb_true_iff in H as [H1 H2]. apply N.leb_le in H1, H2. lia.
+    - destruct h.
+      + right; right; right; right; left. split; [reflexivity|].
+        apply orb_true_iff in H as [H|H]; [apply andb_true_iff in H as [H1 H2]; apply N.leb_le in H1, H2; lia|apply N.eqb_eq in H; lia].
+      + right; right; right; right; right. split; [reflexivity|].
+        apply andb_true_iff in H as [H1 H2]. apply N.leb_le in H1, H2. lia. }
+  destruct Hc as [->|[->|[->|[->|[[-> Hc]|[-> Hc]]]]]]; try (eexists; reflexivity);
+    repeat (destruct Hc as [->|Hc]); try subst id; eexists; reflexivity.
+Qed.
+
+Lemma concat_lens_inj (l1 l2 : list (list N)) :
+  concat l1 = concat l2 -> map (fun l => N.of_nat (length l)) l1 = map (fun l => N.of_nat (length l)) l2 -> l1 = l2.
+Proof.
+  revert l2. induction l1 as [|x l1 IH]; intros [|y l2] Hc Hm; try discriminate; [reflexivity|].
+  cbn [map concat] in *. injection Hm as Hl Hm. apply Nat2N.inj in Hl.
+  assert (x = y /\ concat l1 = concat l2) as [-> Hc'].
+  { revert y Hl Hc. induction x as [|e x IHx]; intros [|f y] Hl Hc; try discriminate; cbn [app] in *.
+    - split; [reflexivity|exact Hc].
+    - injection Hc as -> Hc. injection Hl as Hl. destruct (IHx y Hl Hc) as [-> E]. split; [reflexivity|exact E]. }
+  f_equal. apply IH; assumption.
+Qed.
+
+Lemma same_call_eq o1 o2 : same_call o1 o2 = true ->
+  exists h id a ls b1 b2, o1 = OEncode h id a ls b1 /\ o2 = OEncode h id a ls b2.
+Proof.
+  destruct o1 as [| | | | |h1 i1 a1 l1 b1| |]; try discriminate.
+  destruct o2 as [| | | | |h2 i2 a2 l2 b2| |]; try discriminate.
+  cbn [same_call]. intros H.
+  repeat match type of H with (_ && _) = true => let H2 := fresh "Hs" in apply andb_true_iff in H as [H H2] end.
+  apply eqb_prop in H. apply N.eqb_eq in Hs2. apply list_eqb_eq in Hs1, Hs0, Hs. subst.
+  assert (l1 = l2) by (apply concat_lens_inj; assumption). subst.
+  repeat eexists.
+Qed.
+
+Lemma firstn_spec_packet A D M B R : firstn (10 + length B) (spec_packet A D M B ++ R) = spec_packet A D M B.
+Proof. apply firstn_app_exact. apply spec_packet_length. Qed.
+
+Lemma c16_step_ok ovf g s c o : wf_cfg g -> cinv g c -> oinv ovf s c -> wf_op o ->
+  good (c16_step s o (snd (step ovf c o))) = true.
+Proof.
+  intros Hg Hc Ho Hw. destruct o as [| | | | |h id a ls buf| |]; try apply good_triv.
+  destruct Hw as [Hok Hb]. unfold c16_step.
+  destruct (known_encoder h id) eqn:Hk; [|apply good_triv].
+  destruct (known_encoder_call ovf c h id a ls Hk) as [w Ew].
+  pose proof (step_encode_obs ovf g c h id a ls buf Hg Hc Hok) as S. cbv zeta in S. rewrite Ew in S.
+  rewrite (oinv_eid _ _ _ Ho).
+  destruct (model_message h id a ls (c_eid_resp c)) as [[mt mbody]|] eqn:M.
+  - destruct (model_spec_mt _ _ _ _ _ _ _ M) as [body [Sp Hlen]]. rewrite Sp.
+    unfold fits_frame. rewrite Hlen.
+    destruct (Nat.leb_spec (length mbody + 10) 259) as [Hf|Hf].
+    + replace (259 <? 10 + length mbody)%nat with false in S by (symmetry; apply Nat.ltb_ge; lia).
+      destruct (Nat.leb_spec (length mbody + 10) (length buf)) as [Hl|Hl]; [|apply good_triv].
+      replace (10 + length mbody <=? length buf)%nat with true in S by (symmetry; apply Nat.leb_le; lia).
+      rewrite S. apply good_of.
+      rewrite spec_packet_out_length by lia. rewrite spec_packet_tail, list_eqb_refl, Nat.eqb_refl.
+      replace (10 + length mbody <=? length buf)%nat with true by (symmetry; apply Nat.leb_le; lia).
+      cbn [andb].
+      destruct Ho as (_ & _ & Henc & _).
+      destruct (os_last_enc s) as [[[o' m] out']|] eqn:El; [|reflexivity].
+      destruct (same_call (OEncode h id a ls buf) o') eqn:Hsame; [|reflexivity].
+      destruct (Henc o' m out' eq_refl) as (Hx' & Hw' & _).
+      apply same_call_eq in Hsame as (h' & id' & a' & ls' & b1 & b2 & E1 & E2).
+      injection E1 as <- <- <- <- <-. subst o'.
+      destruct Hw' as [Hok' Hb2].
+      pose proof (step_encode_obs ovf g c h id a ls b2 Hg Hc Hok') as S'. cbv zeta in S'. rewrite Ew, M in S'.
+      replace (259 <? 10 + length mbody)%nat with false in S' by (symmetry; apply Nat.ltb_ge; lia).
+      destruct (10 + length mbody <=? length b2)%nat.
+      * rewrite S' in Hx'.
+        assert (Em : m = (10 + length mbody)%nat) by congruence.
+        assert (Eo : out' = spec_packet (g_addr g) (enc_dest h id a) mt mbody ++ skipn (10 + length mbody) b2) by congruence.
+        rewrite Em, Eo.
+        rewrite Nat.eqb_refl, !firstn_spec_packet, list_eqb_refl. reflexivity.
+      * exfalso. eapply S'. exact Hx'.
+    + replace (259 <? 10 + length mbody)%nat with true in S by (symmetry; apply Nat.ltb_lt; lia).
+      rewrite S. apply good_of, list_eqb_refl.
+  - rewrite (model_none_spec _ _ _ _ _ M). rewrite S. apply good_of, list_eqb_refl.
+Qed.
+
+Theorem c16_holds : holds_on_model 16.
+Proof. apply holds_from_step. intros ovf g s c o Hg Hc Ho Hw. cbn [oracle_of obs3_of fst]. eapply c16_step_ok; eassumption. Qed.
+
+(* ---------- C04 ---------- *)
+Lemma encode_call_known ovf c h id a ls w : encode_call ovf c h id a ls = Some w -> known_encoder h id = true.
+Proof.
+  unfold encode_call. intros E.
+  repeat match type of E with
+         | (match ?x with _ => _ end) = _ => destruct x; try discriminate
+         | (if ?x then _ else _) = _ => destruct x; try discriminate
+         end; reflexivity.
+Qed.
+
+Lemma good_and a b : s_o a = true -> s_o b = true -> good (sv_and a b) = true.
+Proof. intros Ha Hb. unfold good, sv_and. cbn [s_o]. rewrite Ha, Hb. reflexivity. Qed.
+Lemma s_o_triv : s_o sv_triv = true. Proof. reflexivity. Qed.
+
+(* the successful encode the oracle remembers is a specified packet *)
+Lemma last_enc_spec ovf g s c o n out : wf_cfg g -> cinv g c -> oinv ovf s c ->
+  os_last_enc s = Some (o, n, out) ->
+  exists D M B R, out = spec_packet (g_addr g) D M B ++ R /\ n = (10 + length B)%nat /\ (n <= 259)%nat.
+Proof.
+  intros Hg Hc (_ & _ & Henc & _) El. destruct (Henc o n out El) as (Hx & Hw & (h & id & a & ls & b & ->)).
+  destruct Hw as [Hok Hb].
+  pose proof (step_encode_obs ovf g c h id a ls b Hg Hc Hok) as S. cbv zeta in S.
+  destruct (encode_call ovf c h id a ls); [|rewrite S in Hx; discriminate].
+  destruct (model_message h id a ls (c_eid_resp c)) as [[mt body]|]; [|rewrite S in Hx; discriminate].
+  destruct (Nat.ltb_spec 259 (10 + length body)) as [Hf|Hf]; [rewrite S in Hx; discriminate|].
+  destruct (10 + length body <=? length b)%nat.
+  - rewrite S in Hx.
+    assert (En : n = (10 + length body)%nat) by congruence.
+    assert (Eo : out = spec_packet (g_addr g) (enc_dest h id a) mt body ++ skipn (10 + length body) b) by congruence.
+    exists (enc_dest h id a), mt, body, (skipn (10 + length body) b). repeat split; assumption || lia.
+  - exfalso. eapply S. exact Hx.
+Qed.
+
+Lemma nth_firstn_lt (l : list N) k i : (i < k)%nat -> nth i (firstn k l) 0 = nth i l 0.
+Proof. revert l i. induction k as [|k IH]; intros l i H; [lia|]. destruct l as [|x l]; [destruct i; reflexivity|].
+  destruct i; [reflexivity|]. cbn [firstn nth]. apply IH. lia. Qed.
+
+Lemma c04_step_ok ovf g s c o : wf_cfg g -> cinv g c -> oinv ovf s c -> wf_op o ->
+  good (sv_and (c04_step g s o (snd (step ovf c o))) (c04_oversize s o (snd (step ovf c o)))) = true.
+Proof.
+  intros Hg Hc Ho Hw. destruct o as [| |p| | |h id a ls buf| |]; try (apply good_and; reflexivity).
+  - (* the length probe on a prefix of the last encoded packet *)
+    apply good_and; [|reflexivity]. cbn [step snd c04_step]. cbn in Hw. rewrite (get_length_closed p Hw).
+    destruct (os_last_enc s) as [[[o' n] out]|] eqn:El.
+    2:{ destruct (length p <? 3)%nat; [reflexivity|]. destruct (nth 1 p 0 =? 15); reflexivity. }
+    destruct (last_enc_spec ovf g s c o' n out Hg Hc Ho El) as (D & M & B & R & -> & -> & Hn).
+    destruct ((3 <=? length p)%nat && (length p <=? 10 + length B)%nat &&
+              list_eqb p (firstn (length p) (spec_packet (g_addr g) D M B ++ R))) eqn:Hpre.
+    2:{ destruct (length p <? 3)%nat; [reflexivity|]. destruct (nth 1 p 0 =? 15); reflexivity. }
+    apply andb_true_iff in Hpre as [Hpre Hp]. apply andb_true_iff in Hpre as [H3 Hle].
+    apply Nat.leb_le in H3, Hle. apply list_eqb_eq in Hp.
+    replace (length p <? 3)%nat with false by (symmetry; apply Nat.ltb_ge; lia).
+    assert (E1 : nth 1 p 0 = 15).
+    { rewrite Hp. rewrite nth_firstn_lt by lia. reflexivity. }
+    assert (E2 : nth 2 p 0 = N.of_nat (length B + 6)).
+    { rewrite Hp. rewrite nth_firstn_lt by lia. reflexivity. }
+    rewrite E1, E2. cbn [N.eqb Pos.eqb ok sv_of s_o]. rewrite Nat2N.id.
+    apply Nat.eqb_eq. lia.
+  - (* encode *)
+    destruct Hw as [Hok Hb].
+    pose proof (step_encode_obs ovf g c h id a ls buf Hg Hc Hok) as S. cbv zeta in S.
+    unfold c04_step, c04_oversize. rewrite (oinv_eid _ _ _ Ho).
+    destruct (encode_call ovf c h id a ls) as [w|] eqn:Ew.
+    2:{ rewrite S. apply good_and; [reflexivity|].
+        destruct (known_encoder h id) eqn:Hk; [|reflexivity].
+        destruct (known_encoder_call ovf c h id a ls Hk) as [w' Ew']. congruence. }
+    rewrite (encode_call_known _ _ _ _ _ _ _ Ew).
+    destruct (model_message h id a ls (c_eid_resp c)) as [[mt mbody]|] eqn:M.
+    + destruct (model_spec_mt _ _ _ _ _ _ _ M) as [body [Sp Hlen]]. rewrite Sp. unfold fits_frame. rewrite Hlen.
+      destruct (Nat.leb_spec (length mbody + 10) 259) as [Hf|Hf].
+      * replace (259 <? 10 + length mbody)%nat with false in S by (symmetry; apply Nat.ltb_ge; lia).
+        destruct (Nat.leb_spec (10 + length mbody) (length buf)) as [Hl|Hl].
+        -- replace (10 + length mbody <=? length buf)%nat with true in S by (symmetry; apply Nat.leb_le; lia).
+           rewrite S. apply good_and; [|reflexivity]. cbn [sv_of s_o].
+           rewrite spec_packet_0_3, spec_packet_out_length by lia.
+           replace (10 + length mbody - 4)%nat with (length mbody + 6)%nat by lia.
+           destruct Hc as (Ha & _). rewrite list_eqb_refl.
+           replace (4 <=? 10 + length mbody)%nat with true by (symmetry; apply Nat.leb_le; lia).
+           replace (10 + length mbody <=? 259)%nat with true by (symmetry; apply Nat.leb_le; lia).
+           replace (10 + length mbody <=? length buf)%nat with true by (symmetry; apply Nat.leb_le; lia).
+           reflexivity.
+        -- replace (10 + length mbody <=? length buf)%nat with false in S by (symmetry; apply Nat.leb_gt; lia).
+           destruct (snd (step ovf c (OEncode h id a ls buf))) as [?| | | |[?|] ?| | | |]; try (apply good_and; reflexivity).
+           exfalso. eapply S. reflexivity.
+      * replace (259 <? 10 + length mbody)%nat with true in S by (symmetry; apply Nat.ltb_lt; lia).
+        rewrite S. apply good_and; [reflexivity|]. cbn [sv_of s_o]. apply list_eqb_refl.
+    + rewrite (model_none_spec _ _ _ _ _ M). rewrite S. apply good_and; reflexivity.
+Qed.
+
+Theorem c04_holds : holds_on_model 4.
+Proof. apply holds_from_step. intros ovf g s c o Hg Hc Ho Hw. cbn [oracle_of obs3_of fst]. eapply c04_step_ok; eassumption. Qed.
+
+(* ---------- C03, in the same form ---------- *)
+Theorem c03_holds_hist : holds_on_model 3.
+Proof. apply holds_from_step. intros ovf g s c o _ _ _ _. cbn [oracle_of obs3_of fst]. unfold good. rewrite c03_holds. reflexivity. Qed.
